@@ -16,7 +16,8 @@ Clause → theorem map of the property text:
   `field_too_large_raises`; "… or of undelimited input" (header blocks, preamble, a body without
   delimiter): `receive_respects_limit`, `receive_raises_iff`, `buffer_bounded(_decodeChunks)`; urlencoded
   bodies: `urlencoded_read_bounded`, `urlencoded_accepts_iff`, `urlencoded_declared_too_large`;
-* "never accepts more than max_form_parts parts": `parts_bounded(_decodeChunks)`;
+* "never accepts more than max_form_parts parts": `parts_bounded(_decodeChunks)`, `part_guard_exact`, and
+  for the returned fields + files `form_parts_bounded`;
 * "never reads a body whose declared length exceeds max_content_length": `request_declared_too_large`;
   "nor more than that many bytes of a server-terminated stream": `request_never_overreads`;
 * the request-level defaults and the way the limits reach the decoder: `limits_handed_on_unchanged`,
@@ -27,6 +28,8 @@ Clause → theorem map of the property text:
 * excluded: `LimitedStream(is_max=True).read()` stopping at the maximum without raising (F09b / F10b).
 -/
 import WzVerif.Lemmas.FormLimits
+import WzVerif.Lemmas.FormLimitsSim
+import WzVerif.Lemmas.MultipartSafe
 import WzVerif.Lemmas.FormLimitsRequest
 import WzVerif.Lemmas.FormLimitsGuard
 import WzVerif.Gen.FormGlue
@@ -108,6 +111,34 @@ example :
       = 2 := by
   decide +kernel
 
+/-- **form_parts_bounded.** What `MultiPartParser.parse` *returns* is bounded too: for every body, every
+buffer size and every read schedule, if parsing with `max_form_parts = k` succeeds then the number of
+fields plus the number of files in the result is at most `k`. (Field/File events and final Data
+events alternate — a part is closed before the next one is opened — so every returned item belongs
+to a different counted part.) With `request_multipart_form` this bounds `Request.form` + `Request.files`. -/
+theorem form_parts_bounded {bnd : Bytes} {mm : Option Nat} {k bufSize : Nat} {sched : List Nat} {body : Bytes}
+    {r : List (Option Multipart.Str × Multipart.Str) × List FileItem}
+    (h : formParse bnd mm (some k) bufSize sched body = .ok r) : r.1.length + r.2.length ≤ k :=
+  formParse_parts_le h
+
+example :
+    (formParse (str "b") none (some 2) 7 []
+      (str "--b\r\nContent-Disposition: form-data; name=a\r\n\r\n1\r\n--b\r\nContent-Disposition: form-data; name=c; filename=f\r\n\r\n2\r\n--b--\r\n")).toOption =
+      some ([(some ['a'], ['1'])], [⟨some ['c'], ['f'], [("Content-Disposition".toList, "form-data; name=c; filename=f".toList)], [50]⟩]) := by
+  decide +kernel
+
+/-- **parser_raises_only.** `MultiPartParser.parse` can only raise ValueError (malformed body),
+UnicodeDecodeError (a header line that is not UTF-8) or RequestEntityTooLarge (a limit) — for every
+body, limits, buffer size and read schedule. (`UNMODELLED` is the model's marker for RFC 2231
+`key*=charset''…` parameters, which the options-header model does not interpret; the values the model
+uses for Python's AttributeError / UnboundLocalError and for the event bound of its own drain loop are
+unreachable.) So with `silent=True` the only exception a form access can show for a multipart body is
+RequestEntityTooLarge: a refusal is never disguised and never replaced by another error. -/
+theorem parser_raises_only {bnd : Bytes} {mm mp : Option Nat} {bufSize : Nat} {sched : List Nat} {body : Bytes}
+    {e : String} (h : formParse bnd mm mp bufSize sched body = .error e) :
+    e = "ValueError" ∨ e = "UnicodeDecodeError" ∨ e = "RequestEntityTooLarge" ∨ e = "UNMODELLED" :=
+  formParse_raises h
+
 /-! ### accumulated field size -/
 
 /-- **field_bounded (invariant).** While `MultiPartParser.parse` processes events under
@@ -143,6 +174,49 @@ example :
       | .error e => e == "RequestEntityTooLarge" | .ok _ => false) = true ∧
     (match formEvents (some 4) {} [.field (some ['a']) [], .data [1, 2] true, .data [3, 4] false] with
       | .error _ => false | .ok st => st.fields.length == 1) = true := by
+  decide +kernel
+
+/-! ### the guards are exact (both directions at the boundary) -/
+
+/-- **field_guard_exact.** The accumulated-size guard of `MultiPartParser.parse` refuses a Data event of
+a non-file field **exactly** when the field would grow above `max_form_memory_size`: a field of exactly
+`m` bytes passes, `m + 1` bytes are refused — however the bytes are spread over Data events. (The other
+two memory guards are exact as well: `receive_raises_iff` for the decoder buffer,
+`urlencoded_accepts_iff` for url-encoded bodies.) -/
+theorem field_guard_exact {m : Nat} {st : FormState} {p : Part} (x : Bytes)
+    (hok : st.FieldOk m) (hcur : st.cur = some p) (hf : p.isFile = false) :
+    (fieldSizeStep (some m) st.fieldSize x.length = .error "RequestEntityTooLarge" ↔ (p.payload ++ x).length > m) ∧
+    (fieldSizeStep (some m) st.fieldSize x.length = .ok (some (p.payload ++ x).length) ↔ (p.payload ++ x).length ≤ m) := by
+  rcases hok p hcur hf with ⟨hsz, _⟩
+  rw [hsz, List.length_append]
+  exact fieldSizeStep_exact m p.payload.length x.length
+
+/-- **part_guard_exact.** The part counter refuses **exactly** the `(max_parts + 1)`-th part: whenever
+`next_event` without a part limit would deliver a Field / File event, with `max_parts = k` it raises
+RequestEntityTooLarge iff `k` parts were already counted, and delivers the same event otherwise. -/
+theorem part_guard_exact {d d' : Decoder} {k : Nat} {ev : Event} (hk : d.maxParts = some k)
+    (hfree : step { d with maxParts := none } = .ok (ev, d')) (hp : isPart ev = true) :
+    (step d = .error "RequestEntityTooLarge" ↔ d.partsDecoded + 1 > k) ∧
+    (step d = .ok (ev, { d' with maxParts := some k }) ↔ d.partsDecoded + 1 ≤ k) :=
+  step_part_exact hk hfree hp
+
+/-- the boundaries on concrete inputs: a field of exactly 4 bytes passes `max_form_memory_size = 4` when
+it is read in small pieces (buffer_size 3: the buffer guard never trips) and 5 bytes do not; exactly two
+parts pass `max_form_parts = 2`, a third does not; a url-encoded body of exactly 3 bytes passes
+`max_form_memory_size = 3`, 4 bytes do not; a chunk that fills the buffer to exactly the limit is
+taken, one byte more is refused -/
+example :
+    (formEvents (some 4) {} [.field (some ['a']) [], .data [1, 2] true, .data [3, 4] false]).toOption.isSome = true ∧
+    (formEvents (some 4) {} [.field (some ['a']) [], .data [1, 2] true, .data [3, 4, 5] false]).toOption.isSome = false ∧
+    (decodeChunks (str "b") none (some 2)
+      [str "--b\r\nContent-Disposition: form-data; name=a\r\n\r\n1\r\n--b\r\nContent-Disposition: form-data; name=c\r\n\r\n2\r\n--b--\r\n"]).err = none ∧
+    (decodeChunks (str "b") none (some 2)
+      [str "--b\r\nContent-Disposition: form-data; name=a\r\n\r\n1\r\n--b\r\nContent-Disposition: form-data; name=c\r\n\r\n2\r\n--b\r\nContent-Disposition: form-data; name=d\r\n\r\n3\r\n--b--\r\n"]).err =
+      some "RequestEntityTooLarge" ∧
+    (parseUrlencoded (some 3) none [] (str "a=b")).toOption = some [(['a'], ['b'])] ∧
+    (parseUrlencoded (some 3) none [] (str "a=bc")).toOption = none ∧
+    (receive (mkDecoder [98] (some 3) none) (some [1, 2, 3])).toOption.isSome = true ∧
+    (receive (mkDecoder [98] (some 3) none) (some [1, 2, 3, 4])).toOption.isSome = false := by
   decide +kernel
 
 /-! ### limits are pure guards -/
